@@ -31,7 +31,7 @@ CONFIG = dict(
     min_nontrivial={"quick": 300, "thorough": 5000},
     nshards={"quick": 8, "thorough": 16},
     timeout={"quick": 600, "thorough": 3600},
-    required_counters=("failing_inputs_checked", "files_checked", "cli_runs", "json_documents", "loader_threshold_checks", "order_table_cells"),
+    required_counters=("failing_inputs_checked", "rewritten_file_faces", "files_checked", "cli_runs", "json_documents", "loader_threshold_checks", "order_table_cells"),
 )
 
 RANKS = ["LIKELY_SAFE", "POSSIBLY_UNSAFE", "SUSPICIOUS", "LIKELY_UNSAFE", "LIKELY_OVERTLY_MALICIOUS",
@@ -350,6 +350,68 @@ def check_failing(ctx, mods, data):
                       dict(w, outcomes=outcomes))
 
 
+def check_rewritten_file(ctx, mods, i):
+    """One path, its content replaced in place (same inode, same size, modification time put back): every face is asked
+    before and after and must answer for the content it finds."""
+    f, analysis, loader, cli, fickling, U = mods
+    agg = ctx.agg
+    fams = sorted(FAMILIES)
+    a, b = FAMILIES[fams[i % len(fams)]], FAMILIES[fams[(i * 7 + 3) % len(fams)]]
+    size = max(len(a), len(b)) + 8
+    contents = [a + b"\x00" * (size - len(a)), b + b"\x00" * (size - len(b)), a + b"\x00" * (size - len(a))]
+    path = os.path.join(ctx.scratch, "c10_rewritten.pkl")
+    key = h(b"rewritten|" + a + b"|" + b)
+    if not agg.case(key, True, {"label": "file-rewritten-in-place", "families": [fams[i % len(fams)], fams[(i * 7 + 3) % len(fams)]]}):
+        return
+    stamp = None
+    try:
+        for step, content in enumerate(contents):
+            if stamp is None:
+                with open(path, "wb") as fh:
+                    fh.write(content)
+                st = os.stat(path)
+                stamp = (st.st_atime_ns, st.st_mtime_ns)
+            else:
+                with open(path, "r+b") as fh:
+                    fh.write(content)
+                os.utime(path, ns=stamp)
+            try:
+                sev = analysis.check_safety(f.Pickled.load(content)).severity.name
+            except Exception:
+                return
+            want_safe = sev == "LIKELY_SAFE"
+            got = {}
+            try:
+                got["is_likely_safe"] = fickling.is_likely_safe(path)
+            except Exception as e:
+                got["is_likely_safe"] = type(e).__name__
+            try:
+                with open(path, "rb") as fh:
+                    loader.load(fh)
+                got["loader"] = True
+            except U:
+                got["loader"] = False
+            except Exception as e:
+                got["loader"] = type(e).__name__
+            with contextlib.redirect_stdout(io.StringIO()), contextlib.redirect_stderr(io.StringIO()):
+                try:
+                    rc = cli.main(["fickling", "--check-safety", "--json-output", os.path.join(ctx.scratch, "c10_rw.json"), path])
+                except SystemExit as e:
+                    rc = e.code
+            got["cli"] = rc == 0
+            agg.count("rewritten_file_faces", 3)
+            wrong = {k: v for k, v in got.items() if v is not want_safe}
+            if wrong:
+                agg.violation("face:stale-after-file-rewritten-in-place",
+                              f"content #{step + 1} of a file rewritten in place has severity {sev}; faces answered {wrong}",
+                              {"label": "file-rewritten-in-place", "parts_hex": [c.hex() for c in contents[:2]], "step": step + 1})
+                return
+    finally:
+        for pth in (path, os.path.join(ctx.scratch, "c10_rw.json")):
+            if os.path.exists(pth):
+                os.remove(pth)
+
+
 def stacks(ctx):
     fams = sorted(FAMILIES)
     kmax = {"quick": 3, "thorough": 4}[ctx.tier]
@@ -405,6 +467,9 @@ def run_shard(ctx):
         order_table(ctx, mods[1])
     for label, parts, opts in stacks(ctx):
         check_file(ctx, mods, label, parts, opts)
+    for i in range(40):
+        if i % ctx.nshards == ctx.shard:
+            check_rewritten_file(ctx, mods, i)
     for i, data in enumerate(failing_inputs()):
         if i % ctx.nshards == ctx.shard:
             check_failing(ctx, mods, data)
